@@ -87,3 +87,11 @@ def const_model(fn):
         yield ("val", fn(*pos, **kw), [])
     m.pyvc_model = True
     return m
+
+
+def battery_confirm(witness, out):
+    """replay by a concrete battery on the real code: the battery returns True (every case holds) or a description of the first failing
+    case.  A failing case confirms the violation; a battery that itself raises confirms nothing (None: reported as replay error)."""
+    if out.get("kind") == "return":
+        return out.get("value") is not True
+    return None
